@@ -378,6 +378,18 @@ class HangError(Exception):
     pass
 
 
+def bounded(fn, *a):
+    """fn(*a) under the same CPU bound"""
+    signal.signal(signal.SIGVTALRM, _op_hangs)
+    signal.setitimer(signal.ITIMER_VIRTUAL, 2.0)
+    try:
+        return fn(*a)
+    except OpHangs:
+        raise HangError('the call did not return within 2 s of CPU time')
+    finally:
+        signal.setitimer(signal.ITIMER_VIRTUAL, 0)
+
+
 def _call_api(c):
     X = xfrm.Xfrm
     api = c['api']
@@ -789,7 +801,7 @@ def _get(obj, path):
 
 def observe_event(c, data):
     """what Xfrm.parse_message makes of the frame -> (required, optional) lists of (clause, expected, observed-fn)"""
-    header, msg, attrs = xfrm.Xfrm.parse_message(data)
+    header, msg, attrs = bounded(xfrm.Xfrm.parse_message, data)
     s, d = ipn(c['ssel']), ipn(c['dsel'])
     src, dst = ipa(c['tunnel'][0]), ipa(c['tunnel'][1])
     sf = fam(s.version)
@@ -1005,7 +1017,7 @@ def run_reply_unit(unit):
                 ep.kernel.request = answer
                 # the frame read back by Xfrm.parse_message
                 try:
-                    h, p, _ = xfrm.Xfrm.parse_message(frame)
+                    h, p, _ = bounded(xfrm.Xfrm.parse_message, frame)
                     rh = struct.unpack_from('<IHHII', req0)
                     got, want = [h.type, p.error], [KC['NLMSG_ERROR'], -errno]
                     try:    # the echoed header, where the object exposes it under the kernel's names
